@@ -1,12 +1,17 @@
 //! Checks on p2panda-stream: causal orderer (C11, C12) and processor streams (C13).
 use explorer::{Args, Report};
 
+mod c11;
+mod c12;
 mod c13;
+mod gate;
 
 fn main() {
     let args = Args::parse();
     explorer::quiet_panics();
     let code = match args.property.as_str() {
+        "C11" => c11::run(Report::new(&args, "model_checking")),
+        "C12" => c12::run(Report::new(&args, "fault_enumeration")),
         "C13" => c13::run(Report::new(&args, "model_checking")),
         other => {
             eprintln!("vh-stream: unknown property {other}");
